@@ -230,6 +230,37 @@ def sec_labels():
         raise TranslateError('TRIGGERS multipliers / scales not found')
     out += 'Definition trig_write_mult : list Q := [%s].\n' % '; '.join(coq_Q(x) for x in mult)
     out += 'Definition trig_read_scale : list Q := [%s].\n' % '; '.join(coq_Q(x) for x in scale)
+    # ---- get_extension_type_ID: the number given to a name seen for the first time
+    tsq, _ = parse('Sequence/sequence.py')
+    gid = method(tsq, 'Sequence', 'get_extension_type_ID')
+    gsrc2 = unparse(gid)
+    for frag in ('if extension_string not in self.extension_string_idx:', 'if len(self.extension_numeric_idx) == 0:',
+                 'self.extension_numeric_idx.append(extension_id)', 'self.extension_string_idx.append(extension_string)',
+                 'num = self.extension_string_idx.index(extension_string)', 'extension_id = self.extension_numeric_idx[num]'):
+        if frag not in gsrc2:
+            raise TranslateError('get_extension_type_ID: expected `%s`' % frag)
+    first = rule = None
+    for n in ast.walk(gid):
+        if isinstance(n, ast.If) and unparse(n.test) == 'len(self.extension_numeric_idx) == 0':
+            if len(n.body) != 1 or len(n.orelse) != 1 or unparse(n.body[0].targets[0]) != 'extension_id' \
+                    or unparse(n.orelse[0].targets[0]) != 'extension_id':
+                raise TranslateError('get_extension_type_ID: id assignment changed')
+            first = const_int(n.body[0].value)
+            v = n.orelse[0].value
+            if not (isinstance(v, ast.BinOp) and isinstance(v.op, ast.Add)):
+                raise TranslateError('get_extension_type_ID: new id is not `K + ...`: %s' % unparse(v))
+            k = const_int(v.left)
+            r = unparse(v.right)
+            if r == 'max(self.extension_numeric_idx)':
+                rule = '(%s + fold_left Z.max r x)%%Z' % coq_Z(k)
+            elif r == 'self.extension_numeric_idx[-1]':
+                rule = '(%s + last r x)%%Z' % coq_Z(k)
+            else:
+                raise TranslateError('get_extension_type_ID: unsupported new-id expression %s' % unparse(v))
+    if rule is None:
+        raise TranslateError('get_extension_type_ID: `if len(self.extension_numeric_idx) == 0` not found')
+    out += '(* sequence.py get_extension_type_ID: numeric id of a name not seen before, from the list of ids in use *)\n'
+    out += 'Definition ext_new_id (l : list Z) : Z := match l with [] => %s | x :: r => %s end.\n' % (coq_Z(first), rule)
     fmts = {}
     for n in ast.walk(w):
         if isinstance(n, ast.Assign) and unparse(n.targets[0]) == 'id_format_str' and isinstance(n.value, ast.Constant):
